@@ -221,8 +221,5 @@ def r20_4(ctx):
 
 
 def run(ctx):
-    for r in (r20_1, r20_2, r20_3, r20_4):
-        try:
-            r(ctx)
-        except shared.AnchorMissing:
-            pass
+    import engine
+    engine.run_rules(ctx, [r20_1, r20_2, r20_3, r20_4])
